@@ -29,7 +29,7 @@ pub const KEYS: &[&str] = &["a", "b", "c", "d", "key space", "k-1", "Z_9", "\u{e
 /// and names ending in an escaped backslash; no two of them denote the same name
 pub const DKEYS: &[&str] = &[
     "a", "b", "c", "d", "key space", "k-1", "Z_9", "\u{e9}t\u{e9}", "\\u0041", "\\ud83d\\ude00", "q\\\"", "\\\\", "e\\\\",
-    "\\/\\n",
+    "\\/\\n", "\u{1f601}lit", "\\uD834\\uDD1E",
 ];
 
 // ---------------------------------------------------------------- shapes
@@ -512,7 +512,7 @@ pub fn rerender(r: &mut Rng, x: &J) -> J {
             J::Arr(v)
         }
         J::Obj(ms) => {
-            let mut v: Vec<(String, J)> = ms.iter().map(|(k, y)| (k.clone(), rerender(r, y))).collect();
+            let mut v: Vec<(String, J)> = ms.iter().map(|(k, y)| (respell_key(r, k), rerender(r, y))).collect();
             if r.chance(1, 2) {
                 v.reverse();
             }
@@ -522,6 +522,42 @@ pub fn rerender(r: &mut Rng, x: &J) -> J {
             J::Obj(v)
         }
     }
+}
+
+/// another spelling of the same member name: every character literal, as a `\\uXXXX` escape (a surrogate
+/// pair above the basic plane, hex digits in either case) or as its short escape
+pub fn respell_key(r: &mut Rng, k: &str) -> String {
+    if r.chance(1, 2) {
+        return k.to_string();
+    }
+    let Ok(name) = serde_json::from_str::<String>(&format!("\"{k}\"")) else { return k.to_string() };
+    let mut out = String::new();
+    for c in name.chars() {
+        let short = match c {
+            '"' => Some("\\\""),
+            '\\' => Some("\\\\"),
+            '/' => Some("\\/"),
+            '\u{8}' => Some("\\b"),
+            '\u{c}' => Some("\\f"),
+            '\n' => Some("\\n"),
+            '\r' => Some("\\r"),
+            '\t' => Some("\\t"),
+            _ => None,
+        };
+        let literal_ok = c >= ' ' && c != '"' && c != '\\';
+        let upper = r.chance(1, 2);
+        let esc = |u: u32| if upper { format!("\\u{u:04X}") } else { format!("\\u{u:04x}") };
+        let uni = {
+            let mut b = [0u16; 2];
+            c.encode_utf16(&mut b).iter().map(|u| esc(*u as u32)).collect::<String>()
+        };
+        match r.below(3) {
+            0 if literal_ok => out.push(c),
+            1 if short.is_some() => out.push_str(short.unwrap()),
+            _ => out.push_str(&uni),
+        }
+    }
+    out
 }
 
 pub fn hex_doc(d: &J, style: usize) -> String {
